@@ -155,7 +155,13 @@ impl OsIpcSender {
     }
 
     pub fn connect(name: String) -> Result<OsIpcSender, ChannelError> {
-        let record = ONE_SHOT_SERVERS.lock().unwrap().get(&name).unwrap().clone();
+        // The name is only valid while its server exists and has not accepted yet.
+        let record = ONE_SHOT_SERVERS
+            .lock()
+            .unwrap()
+            .get(&name)
+            .cloned()
+            .ok_or(ChannelError::BrokenPipeError)?;
         record.connect();
         Ok(record.sender)
     }
@@ -315,7 +321,15 @@ impl OsIpcOneShotServer {
         record.accept();
         ONE_SHOT_SERVERS.lock().unwrap().remove(&self.name).unwrap();
         let (data, channels, shmems) = self.receiver.recv()?;
-        Ok((self.receiver, data, channels, shmems))
+        Ok((self.receiver.consume(), data, channels, shmems))
+    }
+}
+
+impl Drop for OsIpcOneShotServer {
+    fn drop(&mut self) {
+        // A server dropped without accepting takes its name with it,
+        // like the socket path of the OS back-ends.
+        ONE_SHOT_SERVERS.lock().unwrap().remove(&self.name);
     }
 }
 
